@@ -792,6 +792,34 @@ Hist.do_reassign_profile = _reassign
 Hist.pre_reassign_profile = lambda self: self.is_profile
 
 
+# setters documented / observed to refuse non-positive values (ValueError): a refused assignment is not a change - the object must
+# keep reporting and using what it had, and later valid assignments must still work
+REFUSABLE = {
+    "laser_radius": tuple(PROFILES), "laser_length": tuple(PROFILES), "energy_density": ("uniform",),
+    "pulse_energy": ("bivariate", "trivariate", "gaussbeam"), "pulse_length": ("bivariate", "trivariate", "gaussbeam"),
+    "stddev_x": ("bivariate", "trivariate"), "stddev_y": ("bivariate", "trivariate"),
+    "stddev_waist": ("gaussbeam",), "laser_wavelength": ("gaussbeam",),
+    "min_wavelength": tuple(SPECTRA), "max_wavelength": tuple(SPECTRA), "bins": tuple(SPECTRA),
+    "mean": ("gauss_spectrum",), "stddev": ("gauss_spectrum",),
+}
+
+
+def _refuse(self, arg):
+    name, bad = arg
+    self._ensure()
+    if self.kind not in REFUSABLE[name]:
+        return
+    if name == "bins":
+        bad = int(bad * 100)
+    self.ctx.raises((ValueError,), "refuse:%s.%s" % (self.kind, name), setattr, self.obj, name, bad)
+    self.names.add("refused:" + name)
+    self.ctx.label("refused:%s.%s" % (self.kind, name))
+
+
+Hist.OPS["refuse"] = lambda: st.tuples(st.sampled_from(sorted(REFUSABLE)), st.sampled_from([0.0, -0.02, -1.0]))
+Hist.do_refuse = _refuse
+
+
 def _install_ops():
     for name, (kinds, strat) in SETTERS.items():
         Hist.OPS["set_" + name] = strat
